@@ -41,8 +41,8 @@ def r06_1_descriptors(ctx):
         try:
             spec = W.spec(s)
             got_sig = spec.methods["__str__"]()
-            got_dyn = spec.methods["is_dynamic"]() if s[0] not in ("txn", "ref") else None
-            if s[0] in ("txn", "ref"):
+            got_dyn = spec.methods["is_dynamic"]() if s[0] != "txn" else None
+            if s[0] == "txn":
                 got_len = None
             else:
                 try:
@@ -53,8 +53,8 @@ def r06_1_descriptors(ctx):
             ctx.bad("R06.1", construct, f"constructing/inspecting the type spec raises {r.exc_text[:60]}", "")
             continue
         want_sig = arc4.sig(s)
-        want_dyn = arc4.is_dynamic(s) if s[0] not in ("txn", "ref") else None
-        want_len = None if s[0] in ("txn", "ref") else ("raises" if want_dyn else arc4.byte_len(s))
+        want_dyn = (False if s[0] == "ref" else arc4.is_dynamic(s)) if s[0] != "txn" else None
+        want_len = None if s[0] == "txn" else ("raises" if want_dyn else arc4.byte_len(s))
         problems = []
         if got_sig != want_sig:
             problems.append(f"signature string {got_sig!r}, ARC-4 says {want_sig!r}")
